@@ -17,5 +17,6 @@ CONSTANTS
   MaxBurst = 3
   CanonKinds = TRUE
   PoolAny = FALSE
+  MaxPause = 0
 INVARIANTS PrintViol NoViolation PrintSched
 CHECK_DEADLOCK FALSE
